@@ -155,7 +155,7 @@ fn frame_tok<G: Frame>(g: G) -> String where G::Sample: Flt {
 // one detector history
 
 #[derive(Clone)]
-enum Op { Next(Vec<u64>), NextSq(Vec<u64>), Reset, Current, Win }
+enum Op { Next(Vec<u64>), NextSq(Vec<u64>), Reset, Current, Win, /* rms.clone().into_parts() */ Parts }
 
 /// the reference: the last N source-format inputs of one channel, as exact f64 values
 struct Ref {
@@ -258,6 +258,17 @@ where
                 Op::Reset => { rms.reset(); v.push(("-".to_string(), None, false)); }
                 Op::Current => { let o = rms.current(); v.push((frame_tok(o), Some(o.channels().collect::<Vec<_>>()), false)); }
                 Op::Win => { v.push((format!("w{}", rms.window_frames()), None, false)); }
+                Op::Parts => {
+                    // what the detector holds, through a clone (which must not disturb the original): the window in
+                    // `Fixed::iter` order (oldest frame first) and the running sum
+                    let (ring, sum) = rms.clone().into_parts();
+                    let frames: Vec<F::Float> = ring.iter().cloned().collect();
+                    let tokv = format!("P{}|{}", frames.iter().map(|f| frame_tok(*f)).collect::<Vec<_>>().join(";"), frame_tok(sum));
+                    // numeric side channel for the oracle: every stored square, flattened frame by frame, then the sums
+                    let mut nums: Vec<X<F>> = frames.iter().flat_map(|f| f.channels()).collect();
+                    nums.extend(sum.channels());
+                    v.push((tokv, Some(nums), false));
+                }
             }
         }
         v
@@ -275,6 +286,7 @@ where
             Op::Reset => req.push_str(" r"),
             Op::Current => req.push_str(" c"),
             Op::Win => req.push_str(" w"),
+            Op::Parts => req.push_str(" p"),
         }
     }
     let observed = match &res { Some(v) => v.iter().map(|t| t.0.clone()).collect::<Vec<_>>().join(" "), None => "panic".to_string() };
@@ -304,6 +316,25 @@ where
                 st.count("op:window_frames");
                 if out.0 != format!("w{}", n) { st.oracle_fail("window_frames() differs from the ring buffer length", &req, &format!("w{}", n), &out.0); } else { st.oracle_ok(1); }
             }
+            Op::Parts => {
+                st.count("op:clone_into_parts");
+                // the window must hold the squares of the last N inputs of each channel, oldest first (one rounding each)
+                if let Some(nums) = &out.1 {
+                    if nums.len() != (n + 1) * ch { st.oracle_fail("into_parts(): window is not N frames", &req, &((n + 1) * ch).to_string(), &nums.len().to_string()); }
+                    else {
+                        for c in 0..ch {
+                            if refs[c].poisoned { continue; }
+                            for (i, x) in refs[c].hist.iter().enumerate() {
+                                let want = x * x; let got = nums[i * ch + c].f();
+                                if !((got - want).abs() <= 2.0 * X::<F>::U * want + 2.0 * X::<F>::TINY) {
+                                    st.oracle_fail("into_parts(): the window does not hold the squares of the last N inputs, oldest first", &req, &format!("frame {} channel {}: {:e}", i, c, want), &format!("{:e}", got));
+                                } else { st.oracle_ok(1); }
+                            }
+                        }
+                    }
+                }
+                continue;
+            }
         }
         if let Some(vals) = &out.1 {
             for (c, o) in vals.iter().enumerate() {
@@ -328,7 +359,8 @@ fn gen_ops<S: Smp>(rng: &mut Rng, ch: usize, len: usize, style: u32) -> Vec<Op> 
         if r < 80 { ops.push(Op::Next(frame(rng))); }
         else if r < 90 { ops.push(Op::NextSq(frame(rng))); }
         else if r < 93 { ops.push(Op::Reset); }
-        else if r < 97 { ops.push(Op::Current); }
+        else if r < 96 { ops.push(Op::Current); }
+        else if r < 98 { ops.push(Op::Parts); }
         else { ops.push(Op::Win); }
     }
     ops
